@@ -87,7 +87,7 @@ pub fn profile(prop: &str, thorough: bool) -> Option<Profile> {
             prop: "C05",
             name: "revocation",
             ops: (30, 55),
-            w: Weights { rekey: 8, prune: 6, add_attr: 2, add_dim: 1, del_attr: 3, del_dim: 1, rename: 2, update: 3, keygen: 5, refresh: 8, encaps: 8, matrix: 4, ..z },
+            w: Weights { rekey: 8, prune: 6, add_attr: 2, add_dim: 1, del_attr: 3, del_dim: 1, rename: 2, disable: 2, update: 3, keygen: 5, refresh: 8, encaps: 8, matrix: 4, ..z },
             shadow_refresh: true,
             invalid_pct: 15,
             ..base
